@@ -379,6 +379,17 @@ func runDSProperty(t *testing.T, prop string, rep *verifkit.Report, nShort, nLon
 			r := verifkit.Rand("DS", ci)
 			long := ci >= nShort
 			sc := c01Generate(r, long)
+			if long && (ci-nShort)%4 == 0 {
+				// file-boundary family: the chain ends just above a multiple of 1000, a
+				// reorganisation forks below the boundary (the revert crosses header files), then the
+				// peer returns to the abandoned branch, grown longer
+				sc.Initial = []int{1001, 1002, 1003, 2001, 2002}[r.Intn(5)]
+				sc.Start = sc.Initial - r.Intn(10)
+				d := sc.Initial%1000 + 1 + r.Intn(3)
+				pre := []c01Step{{Op: "settle"}, {Op: "reorg", D: d, N: 1 + r.Intn(3)}, {Op: "settle"}, {Op: "revive", N: 1 + r.Intn(3)}, {Op: "settle"}}
+				sc.Steps = append(pre, sc.Steps...)
+				rep.Event("file_boundary_revive_scenarios", 1)
+			}
 			s, err := c01Run(r, sc, probeEvery)
 			if err != nil {
 				rep.Inconc(ci, "scenario setup: "+err.Error())
